@@ -43,6 +43,7 @@ def run(rep, prog, tier):
     ecdh(rep, prog)
     compression(rep, prog)
     families.check_operation_wiring(rep, prog, 'C03.7')
+    decrypt_wiring(rep, prog)
     families.check_sessionkey_consumers(rep, prog, 'C03.8')
     families.check_pkesk_selection(rep, prog, 'C03.8')
 
@@ -60,6 +61,27 @@ def _call(e, name):
 
 def _store(e, path):
     return e[0] == 'store' and e[1] == path
+
+
+def decrypt_wiring(rep, prog):
+    """Both decrypt operations hand the container exactly what decrypt_sk recovered: (key, cipher) = (R[1], R[0]) of ONE decrypt_sk result."""
+    for cls, roles, subject in (('PGPMessage', ('self', 'passphrase'), 'self'), ('PGPKey', ('self', 'message'), 'message')):
+        fi = prog.method('pgpy.pgp', cls, 'decrypt')
+        rep.saw(fn=fi)
+        seen = 0
+        for s in run_roles(prog, fi, roles, bind={'self.is_encrypted': Const(True), 'message.is_encrypted': Const(True)}):
+            dsk = [c for c in s.calls if c[0].endswith('.decrypt_sk')]
+            dec = [c for c in s.calls if c[0] == '%s.message.decrypt' % subject]
+            if s.raised or (not dsk and not dec):
+                continue
+            seen += 1
+            R = [call_text(c) for c in dsk]
+            ok = len(dec) == 1 and not dec[0][2] and len(dec[0][1]) == 2 and any(dec[0][1] == ['%s[1]' % r, '%s[0]' % r] for r in R)
+            rep.check(ok, 'C03.7', '%s.decrypt' % cls, 'container.decrypt(%s)' % (', '.join(dec[0][1])[:120] if dec else None),
+                      'the container must be decrypted with the session key and the cipher that decrypt_sk recovered (in that order)',
+                      where=fi.where, expected='message.decrypt(R[1], R[0]) with R = <esk>.decrypt_sk(...)', found=dec[0][1] if dec else None)
+        if not seen:
+            raise AnalysisError('%s.decrypt: no path that recovers a session key' % cls)
 
 
 # ------------------------------------------------------------------------------------------------ C03.1
@@ -132,6 +154,29 @@ def pkesk(rep, prog):
         break
     if not seen:
         raise AnalysisError('PKESessionKeyV3.decrypt_sk: no self.ct.decrypt call on the RSA arm')
+    # reader layout: octet 0 is the cipher, the next key_size // 8 octets are the key (the checksum guard itself belongs to C04)
+    nret = 0
+    for alg in ('RSAEncryptOrSign', 'ECDH'):
+        for s in run_roles(prog, fd, ('self', 'pk'), bind={'self.pkalg': enum_const(prog, 'PubKeyAlgorithm', alg)}):
+            dec = [c for c in s.calls if c[0] == 'self.ct.decrypt']
+            if s.raised or len(dec) != 1 or s.ret is None:
+                continue
+            nret += 1
+            M = call_text(dec[0])
+            A = 'SymmetricKeyAlgorithm(%s[0])' % M
+            r = render(s.ret)
+            ok = False
+            m2 = split_args('T' + r) if r.startswith('(') else None       # '(a, b)' -> the two components
+            if m2 is not None and len(m2[1]) == 2 and m2[1][0] == A:
+                sl_ = m2[1][1]
+                head = 'SLICE(%s;1;' % M
+                ok = sl_.startswith(head) and sl_.endswith(')') and \
+                    int_equiv(sl_[len(head):-1], lambda K: K // 8 + 1, {A + '.key_size': ('K', BITS)}) is True
+            rep.check(ok, 'C03.1', 'PKESessionKeyV3.decrypt_sk', '%s: return %s' % (alg, r.replace(M, 'M')[:120]),
+                      'the reader must take octet 0 of m as the cipher and the following key_size // 8 octets as the session key (what encrypt_sk wrote)',
+                      where=fd.where, expected='(SymmetricKeyAlgorithm(M[0]), M[1:1 + key_size // 8])', found=r.replace(M, 'M'), scenario=alg)
+    if not nret:
+        raise AnalysisError('PKESessionKeyV3.decrypt_sk: no returning path')
     # the ciphertext object the packet gets for each algorithm (pkalg setter): RSA -> RSACipherText, ECDH -> ECDHCipherText
     pc = prog.cls('pgpy.packet.packets', 'PKESessionKeyV3')
     pp = pc.find_prop('pkalg')
@@ -214,6 +259,26 @@ def seipd(rep, prog):
         st = [v for p, v, l, _ in s.stores if p == 'self.ct']
         rep.check(st == [call_text(enc[0])] and _events_order(s, lambda e: _store(e, 'self.ct'), lambda e: _call(e, 'self.update_hlen')), 'C03.2', W,
                   'self.ct', 'packet carries the ciphertext and its header length is recomputed afterwards', where=fi.where)
+    # decrypt is the inverse: same cipher call, the block_size // 8 + 2 prefix octets are dropped (the MDC / quick-check guards are C04's)
+    fdec = prog.method('pgpy.packet.packets', 'IntegrityProtectedSKEDataV1', 'decrypt')
+    rep.saw(fn=fdec)
+    nret = 0
+    for s in run_roles(prog, fdec, ('self', 'key', 'alg')):
+        if s.raised or s.ret is None:
+            continue
+        nret += 1
+        dcalls = taint.calls_named(s, '_decrypt')
+        D = call_text(dcalls[0]) if len(dcalls) == 1 else None
+        r = render(s.ret)
+        ok = D is not None and (list(dcalls[0][1]) + [None])[:4] in (['self.ct', 'key', 'alg', None], ['self.ct', 'key', 'alg', 'None']) and not dcalls[0][2]
+        head = 'SLICE(%s;' % D
+        ok = ok and r.startswith(head) and r.endswith(';)') and \
+            int_equiv(r[len(head):-2], lambda B: B // 8 + 2, {'alg.block_size': ('B', BITS)}) is True
+        rep.check(ok, 'C03.2', 'IntegrityProtectedSKEDataV1.decrypt', 'return %s' % r[:120],
+                  'decryption must undo encryption: CFB-decrypt under (key, alg) with zero IV and drop the block_size // 8 + 2 prefix octets',
+                  where=fdec.where, expected='_decrypt(self.ct, key, alg)[block_size // 8 + 2:]', found=r)
+    if not nret:
+        raise AnalysisError('IntegrityProtectedSKEDataV1.decrypt: no returning path')
     # the MDC packet serialises as d3 14 || digest: tag 0x13, new format default, 20 octets < 192 -> one length octet
     mdc = prog.cls('pgpy.packet.packets', 'MDC')
     tid = mdc.attrs.get('__typeid__')
